@@ -172,6 +172,16 @@ theorem outstanding_setQR (s : State) (to : Addr) (r : Record) (d : Denom) :
   · rw [sumRecs_kvDel]; omega
   · rw [sumRecs_kvSet]
 
+theorem outstandingFor_setQR (s : State) (to : Addr) (r : Record) (t : Addr) (d : Denom) :
+    outstandingFor (setQuarantineRecord s to r) t d =
+      outstandingFor s t d + (if to = t then
+        (if r.isFullyAccepted then 0 else Coins.amountOf r.coins d) - Coins.amountOf (coinsAt s to (keyOf r)) d else 0) := by
+  unfold outstandingFor
+  rw [setQR_recs, coinsAt_eq]
+  split
+  · rw [sumRecsFor_kvDel]; simp only; split <;> omega
+  · rw [sumRecsFor_kvSet]
+
 theorem keyOf_length_gt {r : Record} (h : 1 < r.getAllFromAddrs.length) : (keyOf r).length ≠ 1 := by
   simp only [keyOf, createRecordSuffix_length]; omega
 
@@ -250,6 +260,10 @@ structure AddQ (s s' : State) (c : Coins) (to : Addr) (froms : List Addr) : Prop
   at_key : ∀ d, Coins.amountOf (coinsAt s' to (createRecordSuffix froms)) d
       = Coins.amountOf (coinsAt s to (createRecordSuffix froms)) d + Coins.amountOf c d
   other : ∀ k, k ≠ (to, createRecordSuffix froms) → kvGet s'.recs k = kvGet s.recs k
+  outFor : ∀ t d, outstandingFor s' t d = outstandingFor s t d + (if to = t then Coins.amountOf c d else 0)
+  /-- the record written: the existing one topped up, or a new one split by the auto-accept settings -/
+  written : kvGet s'.recs (to, createRecordSuffix froms)
+      = some { toppedUpOrNew s c to froms with declined := isAutoDecline s to froms }
 
 theorem inv_with_qin {s : State} (inv : StoreInv s) (q : Coins) : StoreInv { s with qin := q } :=
   ⟨inv.key, inv.nodup, inv.nfa, inv.idx, inv.nonneg⟩
@@ -306,7 +320,7 @@ theorem addQuarantinedCoins_ok {s s' : State} {c : Coins} {to : Addr} {froms : L
       have := coinsAt_nonneg inv to (createRecordSuffix froms) d
       have := hc d
       omega
-    refine ⟨inv_setQR inv1 _ _ hnn, (show SameRest s { s with qin := Coins.add s.qin c } from ⟨rfl, rfl, rfl, rfl, rfl⟩).trans (setQR_sameRest _ _ _), by simp, by simp, by simp, ?_, ?_, ?_⟩
+    refine ⟨inv_setQR inv1 _ _ hnn, (show SameRest s { s with qin := Coins.add s.qin c } from ⟨rfl, rfl, rfl, rfl, rfl⟩).trans (setQR_sameRest _ _ _), by simp, by simp, by simp, ?_, ?_, ?_, ?_, ?_⟩
     · intro d
       rw [outstanding_setQR, hk', hfa']
       have := hkey.2 d
@@ -325,6 +339,18 @@ theorem addQuarantinedCoins_ok {s s' : State} {c : Coins} {to : Addr} {froms : L
     · intro k hk
       rw [← hk'] at hk
       exact setQR_get_ne _ _ _ hk
+    · intro t d
+      rw [outstandingFor_setQR, hk', hfa']
+      have := hkey.2 d
+      simp only [Bool.false_eq_true, if_false]
+      rw [hc']
+      show outstandingFor s t d + (if to = t then Coins.amountOf qr.coins d - Coins.amountOf (coinsAt s to (createRecordSuffix froms)) d else 0) = _
+      split <;> omega
+    · have hg := setQR_get_self { s with qin := Coins.add s.qin c } to qr' inv1.nodup
+      rw [hk', hfa'] at hg
+      simp only [Bool.false_eq_true, if_false] at hg
+      rw [hqr, hqr']
+      exact hg
 
 /-! ### the send restriction -/
 
@@ -478,6 +504,13 @@ structure Applied (s s' : State) (xs : List Xfer) (outs : List (Addr × Coins)) 
   qin : ∀ d, Coins.amountOf s'.qin d = Coins.amountOf s.qin d + expQuarantined s xs d
   single : ∀ to f d, Coins.amountOf (coinsAt s' to [f]) d = Coins.amountOf (coinsAt s to [f]) d + expRecord s xs to f d
   multi : ∀ k : Addr × Suffix, k.2.length ≠ 1 → kvGet s'.recs k = kvGet s.recs k
+  outFor : ∀ t d, outstandingFor s' t d = outstandingFor s t d + expQuarantinedFor s xs t d
+
+theorem expQuarantinedFor_congr {s s' : State} (h : SameRest s s') (xs : List Xfer) (t : Addr) (d : Denom) :
+    expQuarantinedFor s' xs t d = expQuarantinedFor s xs t d := by
+  induction xs with
+  | nil => rfl
+  | cons x rest ih => simp only [expQuarantinedFor, quarantines_congr h, ih]
 
 theorem expQuarantined_congr {s s' : State} (h : SameRest s s') (xs : List Xfer) (d : Denom) :
     expQuarantined s' xs d = expQuarantined s xs d := by
@@ -504,7 +537,7 @@ theorem applyRestrictions_ok (xs : List Xfer) :
     simp only [applyRestrictions, Except.ok.injEq, Prod.mk.injEq] at h
     obtain ⟨rfl, rfl⟩ := h
     exact ⟨inv, SameRest.refl _, rfl, rfl, rfl, fun d => by simp [expQuarantined], fun d => by simp [expQuarantined],
-      fun to f d => by simp [expRecord], fun k _ => rfl⟩
+      fun to f d => by simp [expRecord], fun k _ => rfl, fun t d => by simp [expQuarantinedFor]⟩
   | cons x rest ih =>
     intro s s' outs inv hn h
     have hn' : ∀ y ∈ rest, ∀ d, 0 ≤ Coins.amountOf y.amt d := fun y hy => hn y (List.mem_cons_of_mem _ hy)
@@ -524,15 +557,16 @@ theorem applyRestrictions_ok (xs : List Xfer) :
         rcases sendRestrictionFn_ok inv (hn x (List.mem_cons_self ..)) hsr with ⟨hq, rfl, rfl⟩ | ⟨hq, rfl, hadd⟩
         · -- delivered directly
           have A := ih s1 s2 outs2 inv hn' hrest
-          refine ⟨A.inv, A.rest, A.bank, A.qout, ?_, ?_, ?_, ?_, A.multi⟩
+          refine ⟨A.inv, A.rest, A.bank, A.qout, ?_, ?_, ?_, ?_, A.multi, ?_⟩
           · rw [A.outs]; simp [specOuts, destOf, hq]
           · intro d; rw [A.out]; simp [expQuarantined, hq]
           · intro d; rw [A.qin]; simp [expQuarantined, hq]
           · intro to f d; rw [A.single]; simp [expRecord, hq]
+          · intro t d; rw [A.outFor]; simp [expQuarantinedFor, hq]
         · -- quarantined
           have A := ih s1 s2 outs2 hadd.inv hn' hrest
           have hsame := hadd.rest
-          refine ⟨A.inv, hsame.trans A.rest, A.bank.trans hadd.bank, A.qout.trans hadd.qout, ?_, ?_, ?_, ?_, ?_⟩
+          refine ⟨A.inv, hsame.trans A.rest, A.bank.trans hadd.bank, A.qout.trans hadd.qout, ?_, ?_, ?_, ?_, ?_, ?_⟩
           · rw [A.outs, specOuts_congr hsame]; simp [specOuts, destOf, hq]
           · intro d
             rw [A.out, hadd.out, expQuarantined_congr hsame]
@@ -563,6 +597,10 @@ theorem applyRestrictions_ok (xs : List Xfer) :
             intro e
             rw [e] at hk
             simp at hk
+          · intro t d
+            rw [A.outFor, hadd.outFor, expQuarantinedFor_congr hsame]
+            simp only [expQuarantinedFor, hq, true_and]
+            split <;> omega
 
 /-! ### bankTransfers -/
 
@@ -597,6 +635,7 @@ structure Transferred (s s' : State) (xs : List Xfer) : Prop where
   qin : ∀ d, Coins.amountOf s'.qin d = Coins.amountOf s.qin d + expQuarantined s xs d
   single : ∀ to f d, Coins.amountOf (coinsAt s' to [f]) d = Coins.amountOf (coinsAt s to [f]) d + expRecord s xs to f d
   multi : ∀ k : Addr × Suffix, k.2.length ≠ 1 → kvGet s'.recs k = kvGet s.recs k
+  outFor : ∀ t d, outstandingFor s' t d = outstandingFor s t d + expQuarantinedFor s xs t d
 
 theorem inv_with_bank {s : State} (inv : StoreInv s) (b : Ledger) : StoreInv { s with bank := b } :=
   ⟨inv.key, inv.nodup, inv.nfa, inv.idx, inv.nonneg⟩
@@ -618,7 +657,7 @@ theorem bankTransfers_ok {s s' : State} {xs : List Xfer} (inv : StoreInv s)
       have A := applyRestrictions_ok xs _ _ _ (inv_with_bank inv b1) hn ha
       have hs : SameRest s { s with bank := b1 } := ⟨rfl, rfl, rfl, rfl, rfl⟩
       obtain ⟨hb, hsup⟩ := debitAll_ok xs _ _ hd
-      refine ⟨⟨A.inv.key, A.inv.nodup, A.inv.nfa, A.inv.idx, A.inv.nonneg⟩, ?_, A.qout, ?_, ?_, ?_, ?_, ?_, A.multi⟩
+      refine ⟨⟨A.inv.key, A.inv.nodup, A.inv.nfa, A.inv.idx, A.inv.nonneg⟩, ?_, A.qout, ?_, ?_, ?_, ?_, ?_, A.multi, ?_⟩
       · exact ⟨A.rest.holder, A.rest.restricted, A.rest.xfer, A.rest.optin, A.rest.auto⟩
       · intro a d
         show Ledger.bal (creditAll s2.bank outs) a d = _
@@ -641,6 +680,10 @@ theorem bankTransfers_ok {s s' : State} {xs : List Xfer} (inv : StoreInv s)
       · intro to f d
         have := A.single to f d
         rw [expRecord_congr hs] at this
+        exact this
+      · intro t d
+        have := A.outFor t d
+        rw [expQuarantinedFor_congr hs] at this
         exact this
 
 /-- a single transfer with the quarantine bypass (the release of accepted funds, `qadd`) -/
